@@ -309,6 +309,12 @@ func stress(kind string, capacity, nprod, nmsgs, histories int, seed int64, h hi
 			mkind = strings.TrimSuffix(kind, "_churn")
 			churn = true
 		}
+		storm := false
+		if strings.HasSuffix(kind, "_storm") { // like churn, but a rejected producer spins on Enqueue without recording the
+			// rejected attempts (one call/ret pair per message): every producer re-reads the freed slot at the same moment
+			mkind = strings.TrimSuffix(kind, "_storm")
+			churn, storm = true, true
+		}
 		prefill := 0
 		if kind == "segroll" { // segmented mailbox driven across a 256-slot segment boundary
 			mkind = "seg"
@@ -371,6 +377,23 @@ func stress(kind string, capacity, nprod, nmsgs, histories int, seed int64, h hi
 					id := p*10 + k
 					if churn {
 						id = p*1000 + k
+					}
+					if storm {
+						rc := actor.VerifPooledContext(snd, &Msg{ID: id, Prio: prios[k-1]})
+						h.call(name, "enq", id, sndName, prios[k-1])
+						err := m.Enqueue(rc)
+						for stop := time.Now().Add(2 * time.Second); err != nil && time.Now().Before(stop); {
+							for spin := 0; err != nil && spin < 4096; spin++ {
+								err = m.Enqueue(rc)
+							}
+						}
+						h.ret(name, "enq", b2i(err == nil))
+						if err == nil {
+							accMu.Lock()
+							accepted++
+							accMu.Unlock()
+						}
+						continue
 					}
 					h.call(name, "enq", id, sndName, prios[k-1])
 					err := m.Enqueue(actor.VerifPooledContext(snd, &Msg{ID: id, Prio: prios[k-1]}))
